@@ -352,6 +352,11 @@ func harnessC17TypedDecodeFailure() {
 	}
 	bus := New(opts...)
 	vAssert(RegisterUpcast(bus, func(a evA) evV2 { return evV2{N: a.N + 1, V: 2} }) == nil, "register-ok")
+	if vBool() {
+		// the upcasters are cleared and registered again: the error handler is configuration, not an upcaster
+		bus.ClearUpcasts()
+		vAssert(RegisterUpcast(bus, func(a evA) evV2 { return evV2{N: a.N + 1, V: 2} }) == nil, "register-ok")
+	}
 	i := 0
 	err := bus.ReplayWithUpcast(ctx, OffsetOldest, func(se *StoredEvent) error {
 		bad := (i == 0) == badFirst
